@@ -99,10 +99,10 @@ func (c Compressor) DecompressWithLength(source io.Reader, dest io.Writer) error
 
 func decompress(source []byte) (dest []byte, err error) {
 	// try destination buffers of increased length to avoid allocating too much space, starting with twice the
-	// compressed length and up to eight times the compressed length
+	// compressed length and up to 256 times the compressed length (an LZ4 block cannot expand by more than 255:1)
 	compressedLength := len(source)
 	var written int
-	for i := compressedLength * 2; i <= compressedLength*8; i *= 2 {
+	for i := compressedLength * 2; i <= compressedLength*256; i *= 2 {
 		dest = make([]byte, i)
 		if written, err = lz4.UncompressBlock(source, dest); err == nil {
 			break
